@@ -68,6 +68,8 @@ static void note_site(void* pc) {
 // forked children, which run the code under test, never reuse memory.  Without this the parent grows with every execution
 // and fork() gets slower and slower.
 static bool g_in_child = false;
+static bool g_reuse = false;       // --reuse: the children recycle freed blocks too (LIFO per size class): address reuse / ABA scenarios become reachable,
+                                   // at the price of the heap quarantine (no use-after-free reports in this mode)
 static void* parent_free[128];
 static inline int parent_class(size_t need) {
   if (need <= 1024) return (int)(need / GRAN);                     // 1..64
@@ -80,7 +82,7 @@ static void* arena_alloc(size_t size, size_t align) {
   if (align < GRAN) align = GRAN;
   size_t need = ((size + GRAN - 1) & ~(GRAN - 1));
   if (need == 0) need = GRAN;
-  if (!g_in_child && align == GRAN) {
+  if ((!g_in_child || g_reuse) && align == GRAN) {
     int c = parent_class(need);
     need = parent_class_size(c);
     if (parent_free[c]) { void* p = parent_free[c]; parent_free[c] = *(void**)p; return p; }
@@ -110,7 +112,7 @@ static void arena_free(void* p) {
     report_double_free(p);
     return;
   }
-  if (!g_in_child && need == parent_class_size(parent_class(need)) && shadow[g0] == 1 && hdr == (size_t*)(((uintptr_t)hdr + GRAN - 1) & ~(uintptr_t)(GRAN - 1))) {
+  if ((!g_in_child || g_reuse) && need == parent_class_size(parent_class(need)) && shadow[g0] == 1 && hdr == (size_t*)(((uintptr_t)hdr + GRAN - 1) & ~(uintptr_t)(GRAN - 1))) {
     int c = parent_class(need); *(void**)p = parent_free[c]; parent_free[c] = p; return;
   }
   race_free(p, need, __builtin_return_address(0));
@@ -1044,6 +1046,7 @@ int explore_main(int argc, char** argv, const std::function<Scenario(const std::
     else if (a == "--weak") weakW = atoi(next().c_str());
     else if (a == "--time-budget") time_budget = atof(next().c_str());
     else if (a == "--race") race_on = true;
+    else if (a == "--reuse") g_reuse = true;
     else { fprintf(stderr, "xvrt: unknown option %s\n", a.c_str()); return 2; }
   }
   if (progs.empty() && modes != "replay") { fprintf(stderr, "xvrt: no programs\n"); return 2; }
